@@ -233,8 +233,60 @@ func emitGuards(repo, outDir string) error {
 		}
 	}
 	fmt.Fprintf(&sb, "Definition c_static_mutable_locals : list string := [%s].\n", strings.Join(statics, "; "))
+	// package-level variables of the Go packages (state shared by every call and every goroutine);
+	// blank identifiers and error sentinels built by errors.New / fmt.Errorf are not state
+	fmt.Fprintf(&sb, "Definition go_package_state : list string := [%s].\n", strings.Join(goPackageState(repo), "; "))
 	writeIfChanged(filepath.Join(outDir, "Guards.v"), sb.String())
 	return nil
 }
 
 func init() { extraEmitters = append(extraEmitters, emitGuards) }
+
+// goPackageState lists "dir/file.go: name" for every package-level var of the library's
+// non-test Go files (all build configurations), skipping "_" and error sentinels.
+func goPackageState(repo string) []string {
+	var out []string
+	for _, dir := range []string{".", "hash", "random"} {
+		ents, err := os.ReadDir(filepath.Join(repo, dir))
+		if err != nil {
+			continue
+		}
+		for _, e := range ents {
+			n := e.Name()
+			if e.IsDir() || !strings.HasSuffix(n, ".go") || strings.HasSuffix(n, "_test.go") || n == "verif_hooks.go" {
+				continue
+			}
+			fset := token.NewFileSet()
+			f, err := parser.ParseFile(fset, filepath.Join(repo, dir, n), nil, 0)
+			if err != nil {
+				out = append(out, fmt.Sprintf("\"%s/%s: unparsable\"", dir, n))
+				continue
+			}
+			for _, d := range f.Decls {
+				gd, ok := d.(*ast.GenDecl)
+				if !ok || gd.Tok != token.VAR {
+					continue
+				}
+				for _, sp := range gd.Specs {
+					vs := sp.(*ast.ValueSpec)
+					for i, id := range vs.Names {
+						if id.Name == "_" {
+							continue
+						}
+						if i < len(vs.Values) {
+							if ce, ok := vs.Values[i].(*ast.CallExpr); ok {
+								if se, ok := ce.Fun.(*ast.SelectorExpr); ok {
+									if x, ok := se.X.(*ast.Ident); ok && ((x.Name == "errors" && se.Sel.Name == "New") || (x.Name == "fmt" && se.Sel.Name == "Errorf")) {
+										continue
+									}
+								}
+							}
+						}
+						out = append(out, fmt.Sprintf("\"%s/%s: %s\"", dir, n, id.Name))
+					}
+				}
+			}
+		}
+	}
+	return out
+}
